@@ -115,10 +115,13 @@ def run_families(ctx, fams=None, tier=None, workers=6):
     from .core import MachineryError
     import time
     for attempt in (1, 2, 3):
+        # explicit work directory: a failed attempt must not leave it behind (run_tlc only hands it back on success)
+        wd = os.path.join(_tlc.WORK, "Families-%d-%d-a%d" % (os.getpid(), int(time.time() * 1000) % 10 ** 7, attempt))
         try:
             return ctx.tlc("Families", cfg="Families.%s.cfg" % tier, cfg_text=txt, workers=workers, timeout=1700,
-                           extra_modules=["DiffOps.tla"])
+                           extra_modules=["DiffOps.tla"], workdir=wd)
         except MachineryError as e:
+            _tlc.cleanup(wd)
             # Safety net: a TLC run that dies for a reason outside the model (killed from outside on a shared machine, a
             # JIT-dependent Java stack overflow) is repeated; a genuine failure of the model fails every attempt and is
             # raised as machinery error.  Repeats are counted in the evidence (observations.tlc_runs_repeated).
@@ -131,9 +134,11 @@ def run_families(ctx, fams=None, tier=None, workers=6):
 def run_deviation(ctx):
     """Named deviation SqrtcovDocConvention must violate SameDistribution (non-vacuity of the invariant)."""
     from .core import MachineryError
-    res = ctx.tlc("Families", cfg="Families.deviation.cfg", workers=2, timeout=600, extra_modules=["DiffOps.tla"],
+    res = ctx.tlc("Families", cfg="Families.deviation.cfg", workers=2, timeout=900, extra_modules=["DiffOps.tla"],
                   expect_violation=True)
     if res.violated != "SameDistribution":
+        from . import tlc as _tlc
+        _tlc.cleanup(res)
         raise MachineryError("deviation SqrtcovDocConvention did not violate SameDistribution (got %r): vacuous invariant"
                              % res.violated)
     return res
